@@ -1,9 +1,13 @@
-(** C13  Transaction pool: per-account nonce order, no stale or duplicate entries. *)
+(** C13  Transaction pool: per-account nonce order, no stale or duplicate entries.
+    Only statements, each closed by [exact] of a lemma proved in Mempool/*.v, followed by
+    [Print Assumptions].  Model: Mempool/Model.v (txList / MemPool of /repo/mempool). *)
 From Coq Require Import ZArith NArith List Bool.
-From Verif Require Import Mempool.Model Mempool.ListProofs.
+From Verif Require Import Mempool.Model Mempool.ListProofs Mempool.PoolProofs Mempool.Theorems.
+From Verif Require Gen.Locks Mempool.LockCheck.
 Import ListNotations.
 
-(** The ready count of the invariant names exactly the gap-free prefix base+1, base+2, ... *)
+(** [count_ready] (the invariant's ready count) is exactly the maximal gap-free prefix
+    base+1, base+2, ... *)
 Theorem C13_ready_prefix_gap_free : forall l b i,
   (i < count_ready b l)%nat -> nth_nonce l i = (b + 1 + N.of_nat i)%N.
 Proof. exact count_ready_prefix. Qed.
@@ -14,3 +18,142 @@ Theorem C13_ready_prefix_maximal : forall l b,
   nth_nonce l (count_ready b l) <> (b + 1 + N.of_nat (count_ready b l))%N.
 Proof. exact count_ready_maximal. Qed.
 Print Assumptions C13_ready_prefix_maximal.
+
+(** On a sorted list Go's sort.Search (binary search, as modelled) finds the insertion point. *)
+Theorem C13_binary_search_position : forall l b n, sorted_above b l ->
+  tl_search l n = (lin_search n l,
+                   (lin_search n l <? length l)%nat && (nth_nonce l (lin_search n l) =? n)%N).
+Proof. exact tl_search_sorted. Qed.
+Print Assumptions C13_binary_search_position.
+
+(** txList.Put keeps the list invariant, rejects a nonce at or below the base and a nonce
+    already present, and reports the exact orphan difference. *)
+Theorem C13_list_put : forall a l t, list_inv a l -> t_acc t = a ->
+  match tl_put l t with
+  | inr PTooLow => (t_nonce t <= s_nonce (base l))%N
+  | inr PSameNonce => exists x, In x (txs l) /\ t_nonce x = t_nonce t
+  | inr _ => False
+  | inl (d, l') => list_inv a l' /\ base l' = base l /\ txs l' = ins t (txs l)
+                   /\ d = (orphans l - orphans l')%Z
+                   /\ (forall x, In x (txs l) -> t_nonce x <> t_nonce t)
+                   /\ (s_nonce (base l) < t_nonce t)%N
+  end.
+Proof. exact tl_put_spec. Qed.
+Print Assumptions C13_list_put.
+
+(** Every atomic step (unlocked put check, locked insert, block arrival, removeTx,
+    eviction, getUnconfirmed, get) preserves the pool invariant. *)
+Theorem C13_step_inv : forall U, idfun U -> forall m s, step_in U s ->
+  PoolInv (pl m) -> pool_in U (pl m) ->
+  PoolInv (pl (astep_run m s)) /\ pool_in U (pl (astep_run m s)).
+Proof. exact step_inv. Qed.
+Print Assumptions C13_step_inv.
+
+(** ... hence every interleaving of the atomic steps of any number of threads does. *)
+Theorem C13_schedule_inv : forall U, idfun U -> forall sched m ths,
+  PoolInv (pl m) -> pool_in U (pl m) -> Forall (thread_in U) ths ->
+  PoolInv (pl (fst (run_sched sched m ths))) /\ pool_in U (pl (fst (run_sched sched m ths))).
+Proof. exact schedule_inv. Qed.
+Print Assumptions C13_schedule_inv.
+
+Theorem C13_sequential_inv : forall U, idfun U -> forall ops m,
+  Forall (op_in U) ops -> PoolInv (pl m) -> pool_in U (pl m) ->
+  PoolInv (pl (fold_left seq_step ops m)) /\ pool_in U (pl (fold_left seq_step ops m)).
+Proof. exact sequential_inv. Qed.
+Print Assumptions C13_sequential_inv.
+
+(** Never two pooled transactions with the same hash or the same (account, nonce). *)
+Theorem C13_no_duplicates : forall p t t', PoolInv p ->
+  In t (all_txs (lists p)) -> In t' (all_txs (lists p)) ->
+  t_id t = t_id t' \/ (t_acc t = t_acc t' /\ t_nonce t = t_nonce t') -> t = t'.
+Proof. exact no_duplicates. Qed.
+Print Assumptions C13_no_duplicates.
+
+(** Reported totals equal what is held; existence queries answer exactly for held hashes. *)
+Theorem C13_counters_exact : forall p, PoolInv p ->
+  plen p = Z.of_nat (length (cache p))
+  /\ plen p = Z.of_nat (length (all_txs (lists p)))
+  /\ porphan p = sum_orphans (lists p)
+  /\ (forall h, exist p h = true <-> exists t, In t (all_txs (lists p)) /\ t_id t = h).
+Proof. exact counters_exact. Qed.
+Print Assumptions C13_counters_exact.
+
+(** What a producer receives per account: the run base+1, base+2, ... of that account's own
+    transactions, maximal (the next held nonce, if any, leaves a gap). *)
+Theorem C13_get_gap_free : forall p a run, PoolInv p -> In (a, run) (pool_get p) ->
+  exists l, In (a, l) (lists p) /\ run = firstn (ready l) (txs l)
+    /\ length run = ready l
+    /\ (forall i, (i < length run)%nat -> nth_nonce run i = (s_nonce (base l) + 1 + N.of_nat i)%N)
+    /\ Forall (fun t => t_acc t = a) run
+    /\ ((ready l < length (txs l))%nat ->
+        nth_nonce (txs l) (ready l) <> (s_nonce (base l) + 1 + N.of_nat (ready l))%N).
+Proof. exact get_gap_free. Qed.
+Print Assumptions C13_get_gap_free.
+
+(** With a size budget and any map iteration order each account's share is a prefix of
+    that run. *)
+Theorem C13_get_limited_prefix : forall size ls budget a got,
+  In (a, got) (get_limited size budget ls) ->
+  exists l k, In (a, l) ls /\ got = firstn k (tl_pooled l).
+Proof. exact get_limited_prefix. Qed.
+Print Assumptions C13_get_limited_prefix.
+
+(** After a processed block notification no pooled transaction of a scanned account is at
+    or below the account's nonce in the new state, for any new state (advance or rewind). *)
+Theorem C13_after_notification_no_stale : forall m b a l t, PoolInv (pl m) ->
+  In (a, l) (lists (pl (block_arrival m b))) -> In t (txs l) -> scanned m b a = true ->
+  (s_nonce (cur (block_arrival m b) a) < t_nonce t)%N.
+Proof. exact after_notification_no_stale. Qed.
+Print Assumptions C13_after_notification_no_stale.
+
+(** The best block or a child of the best block scans every account ... *)
+Theorem C13_sequential_block_scans_all : forall m b a,
+  (b_id b = best m \/ b_parent b = best m) -> scanned m b a = true.
+Proof. exact sequential_block_scans_all. Qed.
+Print Assumptions C13_sequential_block_scans_all.
+
+(** ... an account that is not scanned (non-child block, sender not in the block) keeps its
+    list, which is free of stale entries iff the new nonce has not passed the list's base. *)
+Theorem C13_unscanned_no_stale_partial : forall m b a l t, PoolInv (pl m) ->
+  In (a, l) (lists (pl (block_arrival m b))) -> In t (txs l) -> scanned m b a = false ->
+  In (a, l) (lists (pl m))
+  /\ ((s_nonce (cur (block_arrival m b) a) <= s_nonce (base l))%N ->
+      (s_nonce (cur (block_arrival m b) a) < t_nonce t)%N).
+Proof. exact unscanned_no_stale. Qed.
+Print Assumptions C13_unscanned_no_stale_partial.
+
+(** After a full scan every list's base is the new state, so the producer's runs start at
+    state nonce + 1. *)
+Theorem C13_full_scan_base_fresh : forall m b, PoolInv (pl m) ->
+  (forall a, scanned m b a = true) -> BaseFresh (block_arrival m b).
+Proof. exact full_scan_base_fresh. Qed.
+Print Assumptions C13_full_scan_base_fresh.
+
+Theorem C13_get_from_state : forall m a run, PoolInv (pl m) -> BaseFresh m ->
+  In (a, run) (pool_get (pl m)) ->
+  forall i, (i < length run)%nat -> nth_nonce run i = (s_nonce (cur m a) + 1 + N.of_nat i)%N.
+Proof. exact get_from_state. Qed.
+Print Assumptions C13_get_from_state.
+
+(** F11 (repaired in /repo by fixes/F11_mempool_removeTx.diff): locating the list through
+    tx.Body.Account breaks the invariant for a named sender; it agrees with the repaired
+    lookup whenever Body.Account is the owner address. *)
+Theorem C13_remove_by_body_account_refuted :
+  exists m t, PoolInv (pl m) /\ In t (all_txs (lists (pl m)))
+              /\ ~ PoolInv (pl (snd (remove_tx_body m t))).
+Proof. exact remove_by_body_account_refuted. Qed.
+Print Assumptions C13_remove_by_body_account_refuted.
+
+Theorem C13_remove_by_body_account_partial : forall m t c,
+  cache_find (t_id t) (cache (pl m)) = Some c -> t_body t = t_acc c ->
+  remove_tx_body m t = remove_tx m t.
+Proof. exact remove_by_body_account_partial. Qed.
+Print Assumptions C13_remove_by_body_account_partial.
+
+(** Atomicity of the modelled steps: every write of mp.pool / mp.length / mp.orphan /
+    mp.cache / tl.list / tl.ready / tl.base found in the source by gen/gen_locks.go runs
+    under the exclusive pool (or list) lock, except the listed getUnconfirmed insertion. *)
+Theorem C13_pool_writes_locked :
+  forallb Mempool.LockCheck.lock_ok Gen.Locks.pool_writes && Mempool.LockCheck.writers_present = true.
+Proof. exact Mempool.LockCheck.pool_writes_locked. Qed.
+Print Assumptions C13_pool_writes_locked.
